@@ -55,7 +55,10 @@ RULE = ("histories of simulation.set_input on one real Variable (float/int x day
         "MemoryConfig(max_memory_occupation=0) (every array goes to the on-disk storage; temp dir removed per "
         "case); histories also contain delete_arrays (first tile, a random tile, a sub-range, everything) "
         "followed by new long or short inputs, and - on disk, where the stored value is a copy - inputs passed "
-        "through ONE numpy buffer of the variable's dtype refilled in place between calls.  Non-trivial: at least one long input was accepted or "
+        "through ONE numpy buffer of the variable's dtype refilled in place between calls.  Amounts are also "
+        "passed as arrays of the variable's own dtype (not converted by the holder), as the SAME array object "
+        "for two successive long periods, and as the array simulation.calculate returns for another variable "
+        "(whose stored value must stay what it was).  Non-trivial: at least one long input was accepted or "
         "refused as a contradiction; distinct as whole histories")
 TRUSTED = ["numpy float32 arithmetic on exactly representable dyadic values and int32 truncation are modelled by exact "
            "rationals / Z.quot in SetInput.v; covered by the correspondence only",
@@ -84,6 +87,23 @@ FAMILY = {(YEAR, YEAR), (YEAR, MONTH), (YEAR, DAY), (MONTH, MONTH), (MONTH, DAY)
 _person = entities.Entity("person", "persons", "", "")
 _tbs = taxbenefitsystems.TaxBenefitSystem([_person])
 _known_vars = set()
+
+
+class src_float(variables.Variable):
+    """where an amount may come from: simulation.calculate('src_float', period) is given to set_input"""
+    value_type = float
+    entity = _person
+    definition_period = U.ETERNITY
+
+
+class src_int(variables.Variable):
+    value_type = int
+    entity = _person
+    definition_period = U.ETERNITY
+
+
+_tbs.add_variable(src_float)
+_tbs.add_variable(src_int)
 
 
 def var_name(v):
@@ -202,6 +222,8 @@ def run_history(c, name, sim):
     out = []
     buffers = {}      # one array object per dtype, refilled in place (form "buf")
     dtype = numpy.float32 if c["var"]["vt"] == "float" else numpy.int32
+    src = "src_float" if c["var"]["vt"] == "float" else "src_int"
+    last = None       # the array object given to the previous call (form "same" gives it again, as it is)
     for s in c["steps"]:
         if s.get("op") == "del":
             if s["p"] is None:
@@ -217,8 +239,17 @@ def run_history(c, name, sim):
                 buf = buffers[len(s["vals"])] = numpy.zeros(len(s["vals"]), dtype=dtype)
             buf[:] = s["vals"]
             value = buf
+        elif s.get("form") == "same" and last is not None and len(last) == len(s["vals"]):
+            value = last
+        elif s.get("form") in ("same", "own"):
+            value = numpy.array(s["vals"], dtype=dtype)       # already of the variable's dtype: not converted
+        elif s.get("form") == "src":
+            # the amount is another variable's value, as simulation.calculate returns it
+            sim.set_input(src, periods.period(U.ETERNITY), list(s["vals"]))
+            value = sim.calculate(src, P)
         else:
             value = input_value(s, c["var"]["vt"])
+        last = value if isinstance(value, numpy.ndarray) else None
         try:
             sim.set_input(name, arg, value)
             status = 0
@@ -231,7 +262,11 @@ def run_history(c, name, sim):
                 add = [frac(x.item()) for x in numpy.asarray(r).reshape(-1)]
             except Exception as e:  # noqa: BLE001
                 add = Err(errkind(e), f"{type(e).__name__}: {e}"[:200])
-        out.append([status, dump(sim.get_holder(name)), add])
+        o = [status, dump(sim.get_holder(name)), add]
+        if s.get("form") == "src":
+            # what the source variable holds after its value was used as an amount
+            o.append([frac(x.item()) for x in sim.get_array(src, P)])
+        out.append(o)
     return out
 
 
@@ -241,7 +276,7 @@ def obs_for_coq(c, obs):
     out = []
     before = {}
     for s, o in zip(c["steps"], obs):
-        status, dmp, add = o
+        status, dmp, add = o[:3]
         diff = [kv for kv in dmp if before.get(key_of(kv[0])) != kv[1]]
         before = {key_of(k): vals for k, vals in dmp}
         if s.get("op") == "del":
@@ -356,6 +391,10 @@ def claimed(c, s):
             and s["p"][0] != ETER and tiled_exactly(v["def"], s["p"]) and well_formed_input(c, s))
 
 
+def cast_q(vt, x):
+    return F(int(x)) if vt == "int" else x
+
+
 def close(a, b):
     return abs(a - b) <= F(1, 20000) * max(1, abs(a), abs(b))
 
@@ -369,8 +408,12 @@ def oracle(c, obs):
     before = {}
     truncated = None      # first failure of the open finding int-divide-truncates-share (reported last)
     for i, (s, o) in enumerate(zip(c["steps"], obs)):
-        status, dmp, add = o
+        status, dmp, add = o[:3]
         after = {key_of(k): vals for k, vals in dmp}
+        if len(o) > 3 and len(s["vals"]) == n and o[3] != [cast_q(v["vt"], frac(x)) for x in s["vals"]]:
+            # "values already set are left untouched" holds for every holder, the amount's source included
+            return (f"source-variable-modified: step {i} ({rule} rule, period {s['p']}): the amount was read from "
+                    f"another variable holding {[frac(x) for x in s['vals']]}; after set_input it holds {o[3]}")
         eq = lambda a, b: a == b      # noqa: E731  (replaced by [close] when binary32 cannot be exact)
         where = f"step {i} ({rule} rule, period {s['p']})"
         if s.get("op") == "del":
@@ -819,6 +862,12 @@ class Builder:
                 # (only on disk: in memory the holder keeps the very object it is given)
                 form = "buf"
                 vals = [int(frac(x)) for x in vals] if v["vt"] == "int" else [float(x) for x in vals]
+            elif (rng.random() < 0.15 and len(vals) == self.n and v["def"] != ETER
+                    and (v["vt"] == "float" or all(frac(x).denominator == 1 for x in vals))):
+                # the amount comes out of another variable (simulation.calculate), or is an array of the
+                # variable's own dtype: neither is converted - hence not copied - by the holder
+                form = rng.choice(["src", "own"])
+                vals = [int(frac(x)) for x in vals] if v["vt"] == "int" else [float(x) for x in vals]
         step = {"p": P, "vals": list(vals), "form": form, "role": role, "as_str": rng.random() < 0.4}
         self.ref.inexact = False
         self.ref.set_input(P, vals)
@@ -875,6 +924,18 @@ class Builder:
         vals = [int(x) if x.denominator == 1 and (self.var["vt"] == "int" or self.rng.random() < 0.3) else float(x)
                 for x in amt]
         self.push(P, vals, "long")
+
+    def long_twice(self, P):
+        """One array object of the variable's dtype given, unchanged, for two successive long periods."""
+        if self.closed:
+            return
+        amt = self.amount_for(P, "exact")
+        vals = [int(x) if self.var["vt"] == "int" else float(x) for x in amt]
+        if self.var["vt"] == "int" and any(x.denominator != 1 for x in amt):
+            return
+        nxt = [P[0], shift(P[1], P[2], P[0]), P[2]]
+        self.push(P, vals, "long", form="own")
+        self.push(nxt, vals, "long", form="same")
 
     def case(self):
         c = {"var": self.var, "n": self.n, "steps": self.steps, "stream": self.stream}
@@ -936,6 +997,12 @@ def structured(rng, var, stream, big=False, pattern=None, base=None):
             b.push(rng.choice(T), b.tile_vals(), "tile-late")
     if rng.random() < (0.15 if big else 0.4) and tiled_exactly(defu, base):
         b.forget_and_refill(base, T)
+    if not big and rng.random() < 0.25 and tiled_exactly(defu, base):
+        if rng.random() < 0.5:
+            b.delete(base)             # start again from the pre-set tiles only
+            for t in pre[:3]:
+                b.push(t, b.tile_vals(), "tile")
+        b.long_twice(base)
     r = rng.random()
     if r < 0.35 and T and not big:
         # set a tile again: the same value (accepted) or another one (divide: refused; dispatch: ignored)
